@@ -13,6 +13,8 @@ LEVEL = "exploration"
 
 
 def rpcs(L):
+    if L > 8000:  # request sizes around and beyond 8192 lines
+        return [1024, 4096, 8192, 8193, L - 1, L, L + 1, 10**9]
     if L > 1000:  # more lines than the default request size: several requests at the default, too
         return [1, 7, 256, 1023, 1024, 1025, L, 4096]
     if L > 20:  # the many-chunks product: a read touches up to L chunks
@@ -83,7 +85,7 @@ def execute(case):
         if case.get("pad") and all("error" in v for v in snaps.values()):
             # a reader that refuses padded files does so for every request size: nothing depends on records_per_chunk
             fails = [f for f in fails if f["sig"]["kind"] != "open-or-load-raises"]
-        pairs = [(1, r) for r in rpcs(L)[1:]]
+        pairs = [(rpcs(L)[0], r) for r in rpcs(L)[1:]]
         if L <= 3:
             rs = rpcs(L)
             pairs = [(a, b) for i, a in enumerate(rs) for b in rs[i + 1 :]]
@@ -109,6 +111,8 @@ def plan(tier):
             if L == 6:
                 cases.append({"level": level, "L": 100, "P": 2, "fs": "mcfs", "cache_rpc": None})
                 cases.append({"level": level, "L": 1100 if level == "1.5" else 1030, "P": 2, "fs": "mcfs", "cache_rpc": None})
+                if level == "1.5":
+                    cases.append({"level": level, "L": 8300, "P": 1, "fs": "mcfs", "cache_rpc": None})
                 if tier == "thorough":
                     cases.append({"level": level, "L": 2500, "P": 1, "fs": "local", "cache_rpc": 100})
             for cache_rpc in (1, 2, 4096) if tier == "thorough" else (2,):
@@ -119,7 +123,7 @@ def plan(tier):
 def run(res, tier, seed):
     res.rule = (
         "L in 1..6 (thorough: 1..10) x rpc in {1..L+4, 1024, 1e9} x level {1.1 (C*8), 1.5 (IU2)}, three images of different size (shorter and longer than the first) per product;"
-        " plus a 100-line product (reads touching up to 100 chunks) at rpc {1,2,3,7,33,99,100,1024} and a 1100-line (1.5) / 1030-line (1.1) product at rpc {1,7,256,1023,1024,1025,L,4096}; SPECAN-style images whose burst layout is consistent with the line count (3x4, 4x3, 2x8), with and without a cache; image files with 1 / 512 bytes of padding behind the last record; every tree fully loaded and compared leaf by leaf with the rpc=1 tree (all pairs for L<=3); cache legs open the"
+        " plus a 100-line product (reads touching up to 100 chunks) at rpc {1,2,3,7,33,99,100,1024} and a 1100-line (1.5) / 1030-line (1.1) product at rpc {1,7,256,1023,1024,1025,L,4096}; an 8300-line product at rpc {1024,4096,8192,8193,L-1,L,L+1,1e9}; SPECAN-style images whose burst layout is consistent with the line count (3x4, 4x3, 2x8), with and without a cache; image files with 1 / 512 bytes of padding behind the last record; every tree fully loaded and compared leaf by leaf with the rpc=1 tree (all pairs for L<=3); cache legs open the"
         " same product after create_cache=True at another rpc. Every case compares >= 8 trees, all non-trivial."
     )
     res.assumptions = ["identity of all pairs for L>3 follows from comparison with rpc=1 by transitivity"]
